@@ -19,7 +19,13 @@ EITHER zones (nothing asserted):
   * the state of a table after a FAILED set_columns whose offsets do not start at 0 (the C library clears first and
     validates afterwards; the docstring only says "overwrites existing data") — this malformed input is therefore only
     generated for append_columns, where nothing is cleared;
+  * a failed set_columns / packset_* / column assignment may leave the table unchanged OR well-formed and empty; a table
+    whose ragged columns are internally inconsistent afterwards (offsets not ending at the data length) is a violation;
+  * PopulationTable has metadata as its only column, so a metadata_offset / packset_metadata list of another length
+    simply redefines the row count there — not generated as a refusal;
   * negative entries in an id-array index (undocumented) are not generated;
+  * Variant buffers (genotypes etc.) are the Variant's own working state: they are probed for aliasing tree-sequence
+    memory, but not required to be read-only;
   * `ts.tables` hands out a fresh copy in this version (the docstring allows a future read-only view): mutating it, like
     mutating dump_tables(), must not reach the tree sequence — that IS asserted.
 """
